@@ -48,11 +48,11 @@ class CallMixin:
             m = getattr(self, "bi_" + e.func.id, None)
             if m is not None:
                 return m(e, st, exc, expect)
-            if EXC_NAME.search(e.func.id):
+            if EXC_NAME.search(e.func.id) or e.func.id in self.spec.exc_parents:
                 return self.make_exception(e, e.func.id, st, exc)
         # 4. method calls
         if isinstance(e.func, ast.Attribute):
-            if EXC_NAME.search(e.func.attr) and isinstance(e.func.value, ast.Name) and e.func.value.id not in st.env:
+            if (EXC_NAME.search(e.func.attr) or e.func.attr in self.spec.exc_parents) and isinstance(e.func.value, ast.Name) and e.func.value.id not in st.env:
                 return self.make_exception(e, e.func.attr, st, exc)
             return self.method_call(e, st, exc, expect)
         if isinstance(e.func, ast.Name) and e.func.id in st.env:
@@ -1108,6 +1108,25 @@ class CallMixin:
             else:
                 res.append((s1, V(ITER, ("opaque", ANY.fresh("rev")))))
         return res
+
+    def bi_next(self, e, st, exc, expect):
+        """next(it) for a one-shot iterator held in a local variable and modelled by the sequence of items still to come:
+        yields its head and rebinds the variable to the tail; StopIteration when nothing is left (exact for generators)."""
+        if len(e.args) != 1 or not isinstance(e.args[0], ast.Name) or e.args[0].id not in st.env \
+                or not isinstance(st.env[e.args[0].id].s, Seq):
+            return self.opaque_call(e, st, exc, expect)
+        name = e.args[0].id
+        cur = st.env[name]
+        ok = self.raise_if(st, S.Len(cur) == 0, "StopIteration", e, exc, "next() on an exhausted iterator")
+        if ok is None:
+            return []
+        head = V(cur.s.elem, cur.t[0])
+        rest = self.fresh(cur.s, name + "_rest", ok)
+        ok.assume(rest.t == z3.SubSeq(cur.t, 1, z3.Length(cur.t) - 1))
+        self.note_concat(ok, cur, [("unit", head), ("seq", rest)])
+        ok.env[name] = rest
+        ok.touch()
+        return [(ok, head)]
 
     def bi_iter(self, e, st, exc, expect):
         return [(s1, a[0]) for s1, a, kw in self._args1(e, st, exc)]
